@@ -50,6 +50,7 @@ type fakeStream struct {
 	st               *status.Status
 	trailer          metadata.MD
 	sendsAfterFinish int
+	serverStreams    bool
 }
 
 func (f *fakeStream) Header() (metadata.MD, error) { return nil, nil }
@@ -75,6 +76,18 @@ func (f *fakeStream) RecvMsg(m any) error {
 		out := f.outbox[0]
 		f.outbox = f.outbox[1:]
 		copyMsg(m.(proto.Message), out)
+		if !f.serverStreams {
+			// grpc-go (stream.go, csAttempt.recvMsg): for a non-server-streaming method RecvMsg
+			// reads on after the reply and returns the call's final status (nil for OK).
+			sched.Point("backend-stream RecvMsg (final status of a single-reply call)", func() bool { return len(f.outbox) > 0 || f.finished || f.ctx.Err() != nil })
+			switch {
+			case len(f.outbox) > 0:
+				return status.Error(codes.Internal, "cardinality violation: expected <EOF> for non server-streaming RPCs, but received another message")
+			case f.finished:
+				return f.st.Err() // nil for OK
+			}
+			return status.FromContextError(f.ctx.Err()).Err()
+		}
 		return nil
 	}
 	if f.finished {
@@ -227,7 +240,7 @@ func newC10Sys(sc c10Script) *c10Sys {
 	}
 	s.newStream = func(ctx context.Context, desc *grpc.StreamDesc, method string) (grpc.ClientStream, error) {
 		s.backendMD, _ = metadata.FromOutgoingContext(ctx)
-		s.stream = &fakeStream{ctx: ctx}
+		s.stream = &fakeStream{ctx: ctx, serverStreams: desc.ServerStreams}
 		s.streamReady = true
 		return s.stream, nil
 	}
